@@ -433,12 +433,12 @@ func (m *immutableMap) mutable() *mutableMap {
 
 // Has checks if the map contains the specified key.
 func (m *mutableMap) Has(key Value) bool {
-	return m.Immutable().Has(key)
+	return m.immutable().Has(key)
 }
 
 // Get retrieves the value associated with the given key.
 func (m *mutableMap) Get(key Value) Value {
-	return m.Immutable().Get(key)
+	return m.immutable().Get(key)
 }
 
 // Set adds or updates a key-value pair in the map.
@@ -537,7 +537,11 @@ func (m *mutableMap) Range() func(func(key, value Value) bool) {
 
 // Immutable returns the immutable version of the map.
 func (m *mutableMap) Immutable() Map {
-	return m.immutable()
+	value := make(map[uint64][][2]Value, len(m.value))
+	for hash, bucket := range m.value {
+		value[hash] = bucket
+	}
+	return &immutableMap{value: value}
 }
 
 // Mutable returns a mutable version of the map.
